@@ -1095,9 +1095,13 @@ def criteria_parser(criteria):
             if is_number(value):
                 return criteria_parser(value)
 
-            check = build_wildcard_re(value)
-            if check is not None:
-                return check
+        if op in (operator.eq, operator.ne) and not is_number(value):
+            # "=" is a wildcard match, "<>" is its complement
+            wildcard = build_wildcard_re(value)
+            if wildcard is not None:
+                if op == operator.eq:
+                    return wildcard
+                return lambda x: not wildcard(x)
 
         if is_number(value):
             value = coerce_to_number(value)
